@@ -19,20 +19,35 @@ def _sel_ev(s):
     )
 
 
+def _sel_same(s):
+    # ONE call site (one code object) used for streams of every kind: untyped, and typed with different event models
+    return s.Select(
+        lambda e: e.jets().Select(lambda j: j.pt())
+    )
+
+
 def _where_any(s):
     return s.Where(
         lambda e: e.x > 1
     )
 
 
-def make_typed_model():
+def make_typed_model(keep=None):
+    """keep: called with every stream a callback creates - the callback's author holds on to it (a stream like any other:
+    it must stay what it was when it was made)"""
     from func_adl import func_adl_callback
 
     def cb_event(s, a):
-        return s.MetaData({"ev": 1}), a
+        s2 = s.MetaData({"ev": 1})
+        if keep:
+            keep(s2)
+        return s2, a
 
     def cb_empty(s, a):
-        return s.MetaData({}), a
+        s2 = s.MetaData({})
+        if keep:
+            keep(s2)
+        return s2, a
 
     class Jet:
         @func_adl_callback(cb_empty)
@@ -49,12 +64,15 @@ def make_typed_model():
     return Event, Jet
 
 
-def make_typed_model2():
+def make_typed_model2(keep=None):
     "no class-level callback on the event: the first callback to fire is the one inside the nested lambda"
     from func_adl import func_adl_callback
 
     def cb_md(s, a):
-        return s.MetaData({"jetcb": 1}), a
+        s2 = s.MetaData({"jetcb": 1})
+        if keep:
+            keep(s2)
+        return s2, a
 
     class Jet:
         @func_adl_callback(cb_md)
@@ -93,7 +111,8 @@ class World:
         world = self
         self.log = []
         self.log_self = []  # the object each executor call ran on
-        self.Event, self.Jet = make_typed_model()
+        self.kept = []  # streams made inside callbacks and held on to by their author: (stream, observation when made)
+        self.Event, self.Jet = make_typed_model(lambda s2: self.kept.append((s2, self.observe(s2))))
 
         class DS(EventDataset):
             def __init__(self, idx, item_type=None, fail=False):
@@ -116,7 +135,7 @@ class World:
             self.datasets.append(DS(len(self.datasets)))
         for i in range(n_typed):
             self.datasets.append(DS(len(self.datasets), self.Event))
-        self.Event2, self.Jet2 = make_typed_model2()
+        self.Event2, self.Jet2 = make_typed_model2(lambda s2: self.kept.append((s2, self.observe(s2))))
         for i in range(n_typed2):
             self.datasets.append(DS(len(self.datasets), self.Event2))
         # streams that are not rooted in a dataset object (built on a name): one untyped, the others typed
@@ -217,6 +236,8 @@ class World:
             return (lambda s: _sel_ev(s) if k == "Event" else _sel_any(s)), ("Select", "call"), False
         if name == "WhereCall":
             return _where_any, ("Where", "call"), False
+        if name == "SelectCallSame":
+            return _sel_same, ("Select", "call-same-site"), False
         if name == "MD0":
             return (lambda s: s.MetaData({})), ("MetaData", {}), False
         if name == "MD1":
@@ -448,6 +469,9 @@ def history_code(roots, hist):
                     f"    return 'mut'\nprint('value ->', streams[{i}].value(executor=scribbler))")
         elif name == "SelectAst":
             code = f"streams.append(streams[{i}].Select(ast.parse({BODIES[k]['Select']!r}).body[0].value))  # the harness re-uses ONE ast object per kind"
+        elif name == "SelectCallSame":
+            code = ("def sel_same(s):\n    return s.Select(\n        lambda e: e.jets().Select(lambda j: j.pt())\n    )\n"
+                    f"streams.append(sel_same(streams[{i}]))  # needs to live in a file: source recovery reads it")
         elif name in ("SelectCall", "WhereCall"):
             code = f"streams.append(streams[{i}].{'Where' if name == 'WhereCall' else 'Select'}(\n    lambda e: e.x{' > 1' if name == 'WhereCall' else ''}\n))"
         elif name == "MD0":
